@@ -2,6 +2,7 @@ import Pk.FitLaws
 import Pk.MatFlow
 import Pk.XLoc
 import Pk.Inst
+import Pk.DepSound
 /-! # C02 — Lifted state block never depends on the exogenous input
 
 Rows are pairs `⟨x, u⟩`: `x` is the lifted-state block, `u` the input-dependent block.  The theorems say
@@ -37,6 +38,20 @@ theorem C02_state_independent_matrix (hL : ops.Lawful ok) (s : S) (nx nu : Nat) 
   rw [Stage.mt_refines (rowFn ops ok) s X hG l, Stage.mt_refines (rowFn ops ok) s X' hG' l]
   exact C02_state_independent ops ok hL s nx nu _ _ (hX l) (hX' l) (hs l)
 
+/-- **the dependency-set instance is sound** (it is what the correspondence compares with column perturbations of
+the real `transform`): mark every cell of an episode with a set of ids (`M`), run the SAME generic tree at the
+dependency-set domain; a lifted cell whose set misses `j` has the same value on any two episodes that differ
+only in cells whose marks contain `j`.  With the input columns marked `j`, a lifted-state column whose set misses
+`j` is therefore independent of the input — for every tree and every value domain. -/
+theorem C02_dependency_sound (okD : List Nat → Prop) (s : S) (nx nu : Nat) (X X' : Ep α) (M : Ep (List Nat)) (j : Nat)
+    (hX : Typed nx nu X) (hX' : Typed nx nu X') (hM : Typed nx nu M)
+    (hl : X.length = M.length) (hl' : X'.length = M.length)
+    (h : AgreeOff ops X X' M j) (r : Nat) (hr : r < M.length - Stage.loss s) :
+    ∃ d v v', (Stage.tr (rowFn depOps okD) s M)[r]? = some d
+      ∧ (Stage.tr (rowFn ops ok) s X)[r]? = some v ∧ (Stage.tr (rowFn ops ok) s X')[r]? = some v'
+      ∧ (∀ c, j ∉ d.x.getD c [] → v.x[c]? = v'.x[c]?) ∧ (∀ c, j ∉ d.u.getD c [] → v.u[c]? = v'.u[c]?) :=
+  Stage.dep_sound ops ok okD s nx nu X X' M j hX hX' hM hl hl' h r hr
+
 private def sDemo : S := .pipe (.cons (.rw (.poly 2 false)) (.cons (.delay 1 0) .nil))
 private def xDemo : Ep Int := [⟨[2], [3]⟩, ⟨[5], [7]⟩]
 private def xDemo' : Ep Int := [⟨[2], [11]⟩, ⟨[5], [13]⟩]
@@ -47,5 +62,10 @@ example :
     (Stage.tr (rowFn intOps) sDemo xDemo).map (·.x) = (Stage.tr (rowFn intOps) sDemo xDemo').map (·.x)
     ∧ (Stage.tr (rowFn intOps) sDemo xDemo).map (·.u) ≠ (Stage.tr (rowFn intOps) sDemo xDemo').map (·.u) := by
   decide
+
+/-- non-vacuity of the dependency instance: state column marked 0, input column marked 1; through poly → delay the
+lifted-state cells carry only mark 0, the lifted-input cells carry mark 1 -/
+example : Stage.tr (rowFn depOps) sDemo [⟨[[0]], [[1]]⟩, ⟨[[0]], [[1]]⟩]
+    = [⟨[[0], [0], [0], [0]], [[1], [0, 1], [1]]⟩] := by decide +kernel
 
 end Pk.C02
